@@ -138,6 +138,14 @@ def filter_attr(attr_text, override_derive=None):
     return attr_text, None
 
 
+def split_sub(text):
+    """`<regex> => <replacement>` (replacement may be empty)."""
+    i = text.rfind(" =>")
+    if i < 0:
+        raise ValueError("bad rewrite directive: %r" % text)
+    return text[:i].strip(), text[i + 3:].strip()
+
+
 def desugar_try_once(text):
     """Rewrite the first postfix `?` in `text` (Rust code) by rustc's desugaring for Result:
          E?   =>   (match E { Ok(v) => v, Err(e) => return Err(From::from(e)) })
@@ -585,10 +593,10 @@ class Expander:
             elif k == "nloops":
                 spec["nloops"] = int(w[1])
             elif k == "sig":
-                a, b = w[1].split(" => ")
+                a, b = split_sub(w[1])
                 spec["sigsubs"].append((a.strip(), b.strip()))
             elif k in ("body_sub", "body_sub?"):
-                a, b = w[1].split(" => ")
+                a, b = split_sub(w[1])
                 spec["bodysubs"].append((a.strip(), b.strip(), k.endswith("?")))
             elif k == "desugar_try":
                 spec["desugar_try"] = True
@@ -750,12 +758,12 @@ class Expander:
             elif w[0] == "drop":
                 drop |= {x.strip() for x in w[1].split(",")}
             elif w[0] == "const_sub":
-                a, b = w[1].split(" => ")
+                a, b = split_sub(w[1])
                 const_subs.append((a.strip(), b.strip()))
             elif w[0] == "attr":
                 cattrs.append(w[1])
             elif w[0] == "header":
-                a, b = w[1].split(" => ")
+                a, b = split_sub(w[1])
                 header_sub.append((a.strip(), b.strip()))
             else:
                 raise ValueError("%s:%d unknown container directive %r" % (self.tmpl_path, c["line"], c["text"]))
